@@ -30,10 +30,10 @@ ASSUMPTIONS = ['fresh-object replay = the code itself without history (sequentia
                'search_results() before any search is not generated (no documented answer)']
 EXHAUSTIVE = {'quick': False, 'thorough': False}
 HASH_SEEDS = {'quick': [0], 'thorough': [0, 1, 2]}
-MINIMA = {'quick': {'stranger_calls': 50, 'returned_set_edits': 40, 'prior_sibling_cases': 30, 'returned_design_edits': 50, 'sibling_searches': 80, 'ops_compared': 1500, 'set:bigrams': 100, 'distinct_nontrivial': 150, 'repeat_results': 100,
-                    'param_snapshots': 1500},
-          'thorough': {'stranger_calls': 600, 'returned_set_edits': 500, 'prior_sibling_cases': 400, 'returned_design_edits': 700, 'sibling_searches': 1000, 'ops_compared': 20000, 'set:bigrams': 150, 'distinct_nontrivial': 2000, 'repeat_results': 1500,
-                       'param_snapshots': 20000}}
+MINIMA = {'quick': {'stranger_calls': 50, 'returned_set_edits': 40, 'prior_sibling_cases': 30, 'returned_design_edits': 50, 'sibling_searches': 80, 'ops_compared': 1200, 'set:bigrams': 100, 'distinct_nontrivial': 150, 'repeat_results': 100,
+                    'param_snapshots': 1200},
+          'thorough': {'stranger_calls': 600, 'returned_set_edits': 500, 'prior_sibling_cases': 400, 'returned_design_edits': 700, 'sibling_searches': 1000, 'ops_compared': 16000, 'set:bigrams': 150, 'distinct_nontrivial': 2000, 'repeat_results': 1500,
+                       'param_snapshots': 16000}}
 N = {'quick': 320, 'thorough': 4000}
 CASE_TIMEOUT = {'quick': 300, 'thorough': 900}
 
